@@ -224,7 +224,10 @@ if __name__ == "__main__":
         "symbolic (Dolev-Yao) cryptography: SHA-256/HKDF/ChaChaPoly/X25519/signatures are free constructors; an AEAD box opens only under the same key, nonce and associated data; a signature verifies only for the key and message it was issued for (ideal scheme of c08/SymCrypto); computational soundness is outside Coq",
         "peer.IDFromPublicKey is injective (C08); the model numbers identity keys and peer IDs alike",
         "the per-key-type dimension (Ed25519, ECDSA, Secp256k1, RSA) is uniform in the symbolic model and is covered by the correspondence runs",
-        "a duplicate of handshake message 2 or 3 arrives after the receiver's last handshake read: it is not handshake data for that receiver (it is rejected by the transport phase, C02)",
+        "a duplicate of handshake message 2 or 3 (Noise) or of the last handshake record of a direction (TLS) arrives after the receiver's last handshake read: it is not handshake data for that receiver (it is rejected by the transport phase, C02)",
+        "TLS 1.3 (crypto/tls) is an ideal authenticated key exchange: a side completes only if the handshake records it received are the ones the peer sent, VerifyPeerCertificate accepted the peer's chain, and the peer proved possession of the leaf certificate's private key; legacy_record_version bytes and ChangeCipherSpec records are not authenticated by TLS 1.3 by design and are not edited",
+        "x509.ParseCertificate rejects a certificate carrying an extension twice; x509.Verify with the certificate itself as only root checks validity period and unhandled critical extensions but NOT the signature (confirmed by the harness; known finding)",
+        "TLS monitor ground truth: an endpoint can get only its own identity key certified for a certificate key it holds (unforgeability hypothesis presents_only_own of c01_tls_monitor_accepts_model_partial)",
     ]
     standard_flow(ctx, dict(
         consts=consts,
@@ -240,6 +243,11 @@ if __name__ == "__main__":
              "x 4x4 expected-peer settings x 5 prologue pairings; (C) every byte position of every handshake message (incl. the length prefix) flipped (sampled for the non-Ed25519 types in quick); "
              "(D) a cooperating malicious endpoint (flynn/noise driven directly) presenting 5 claimed identity keys x 7 signatures (own key over prefix+static / another static / static only, "
              "recorded signatures of A and B, junk, empty) x 4 settings x 2 prologues x both roles. Observed per endpoint: error class or RemotePeer()/RemotePublicKey(). "
-             "Every outcome is compared with the Coq model (conform_case) and judged by the property monitor (monitor_case). Non-trivial = edited, forged or refused.",
+             "TLS: (2) the VerifyPeerCertificate callback of ConfigForPeer(exp) and PubKeyFromCertChain on certificates built with 29 presentations (extension public key / signature / certificate key replaced, "
+             "victim's extension replayed, stolen certificate, extension absent / twice / not ASN.1 / critical, other extensions, chain length 0/2, signed by another key, altered after signing, expired) x 4 expectations x identities; "
+             "(3) real tls.Transport pairs whose certificates were replaced by those presentations on either side x expected-peer settings, and a record-aware man in the middle: byte flips of every handshake record "
+             "(content type, length, payload; all positions in thorough), truncate/extend/drop/duplicate/splice; after an undisturbed handshake one byte is exchanged each way (first Read on the client reports a server-side rejection). "
+             "Swarm: (4) dialAddr, DialPeer and dialPeer-over-a-scripted-dial-sync on a real Swarm whose transport authenticates every peer 0..4 for every dialled peer 1..4. "
+             "Every outcome is compared with the Coq model (conform_case) and judged by the property monitor (monitor_case). Non-trivial = edited, forged/mutated, refused, or a wrong-peer connection offered.",
         describe=describe, key=key, what=what, crosscheck=150,
     ))
